@@ -7,7 +7,7 @@ import xml.parsers.expat
 import common
 from common import enc_str, dec_str
 import xmlcorr as X
-import translate_esc, translate_ns
+import translate_esc, translate_ns, translate_escsrc
 
 PROLOGUE = u"<?xml version='1.0' encoding='UTF-8'?>\n"
 LEMMA_MODULES = ['OdfModel.Xml.EscapeLemmas', 'OdfModel.Xml.AttrLemmas', 'OdfModel.Xml.TagLemmas',
@@ -18,6 +18,7 @@ LEMMA_MODULES = ['OdfModel.Xml.EscapeLemmas', 'OdfModel.Xml.AttrLemmas', 'OdfMod
 def setup(chk, prop_modules):
     translate_esc.translate(chk)
     translate_ns.translate(chk)
+    translate_escsrc.translate(chk)
     ok = chk.prove(modules=prop_modules + LEMMA_MODULES, drivers=['drv_xml'])
     return chk.driver('drv_xml')
 
